@@ -794,3 +794,51 @@ def _np_linspace(it, args, kw):
 
 for _pkg in ('numpy', 'jax.numpy'):
     EXTERNAL[_pkg + '.linspace'] = Builtin('np.linspace', _np_linspace)
+
+
+# ---- array-valued draws of a RandomState (RandomDesigner.suggest)
+def _size_shape(it, size):
+    xs = M.try_iterate(it, size) if not (isinstance(size, int) or z3.is_expr(size)) else [size]
+    if xs is None or len(xs) not in (1, 2):
+        raise Unsupported('rng draw with size %r' % (size,))
+    return tuple(xs)
+
+
+def _rng_random_integers(it, args, kw):
+    """RandomState.random_integers(low, high, size): integers in the CLOSED interval [low, high] (numpy documentation)"""
+    lo, hi = args[0], args[1] if len(args) > 1 else kw.get('high')
+    size = kw.get('size', args[2] if len(args) > 2 else None)
+    if size is None:
+        raise Unsupported('scalar random_integers')
+    run = it.run
+    shape = _size_shape(it, size)
+    f = NP.fresh_fn(run, 'randint', len(shape), z3.IntSort())
+    lo_, hi_ = NP.zi(lo), NP.zi(hi)
+    idx = [z3.Int('q!%d' % next(_uid)) for _ in shape]
+    rng_ok = z3.And(*[z3.And(i >= 0, i < NP.zi(s)) for i, s in zip(idx, shape)])
+    run.axiom(z3.ForAll(idx, z3.Implies(z3.And(rng_ok, lo_ <= hi_), z3.And(lo_ <= f(*idx), f(*idx) <= hi_)), patterns=[f(*idx)]))
+    run.__dict__.setdefault('rng_draws', []).append(('random_integers', lo_, hi_, shape))
+    return NDArray(shape, 'int', lambda *i: f(*i))
+
+
+def _rng_random(it, args, kw):
+    """RandomState.random(size): floats in [0, 1)"""
+    size = kw.get('size', args[0] if args else None)
+    run = it.run
+    if size is None:
+        u = run.fresh('random', xreal.XReal)
+        run.assume(z3.And(xreal.is_fin(u), xreal.r(u) >= 0, xreal.r(u) < 1))
+        return u
+    shape = _size_shape(it, size)
+    f = NP.fresh_fn(run, 'random', len(shape), xreal.XReal)
+    idx = [z3.Int('q!%d' % next(_uid)) for _ in shape]
+    run.axiom(z3.ForAll(idx, z3.And(xreal.is_fin(f(*idx)), xreal.r(f(*idx)) >= 0, xreal.r(f(*idx)) < 1), patterns=[f(*idx)]))
+    run.__dict__.setdefault('rng_draws', []).append(('random', shape))
+    return NDArray(shape, 'float', lambda *i: f(*i))
+
+
+_RNG_METHODS['random_integers'] = _rng_random_integers
+_RNG_METHODS['random'] = _rng_random
+_RNG_METHODS['random_sample'] = _rng_random
+RNG_ASSUMPTIONS += ['RandomState.random_integers(low, high, size) returns integers in the closed interval [low, high]',
+                    'RandomState.random(size) returns floats in [0, 1)']
